@@ -389,6 +389,7 @@ package statedb
 //@   ensures @mismatch-dom txn != nil && err == ErrRevisionNotEqual ==> (forall j int :: GH_dom[txn.tableEntries[tposOf(meta)].indexes[3]][j] == old(GH_dom[txn.tableEntries[tposOf(meta)].indexes[3]])[j])
 //@   ensures @mismatch-map txn != nil && err == ErrRevisionNotEqual ==> (forall j int :: GH_map[txn.tableEntries[tposOf(meta)].indexes[3]][j] == old(GH_map[txn.tableEntries[tposOf(meta)].indexes[3]])[j])
 //@   ensures @mismatch-rejected txn != nil && old(txn.tableEntries[tposOf(meta)].locked) && guardRevision > 0 && hadOld && oldObj.revision != guardRevision ==> err == ErrRevisionNotEqual
+//@   mustcall tableIndexReader.get@1 when @new-key-checked-against-the-graveyard txn != nil && err == nil && !hadOld
 //@   aftercall (*writeTxnState).mustIndexWriteTxn@* assume ixPos(result) == $2
 //@   atcall tableIndexTxn.delete@* requires @graveyard-touched-only-after-the-guard-passed (ixPos($0) == GraveyardIndexPos || ixPos($0) == GraveyardRevisionIndexPos) ==> (guardRevision == 0 || (oldExists && oldObj.revision == guardRevision))
 //@   atcall tableIndexTxn.reindex@* requires @secondary-indexes-only-after-the-guard-passed guardRevision == 0 || (oldExists && oldObj.revision == guardRevision)
